@@ -34,13 +34,13 @@ pub fn check() -> Check {
         spec: CheckSpec {
             prop: "C14",
             level: "exploration",
-            rule: "execution = one real node with update-feed listeners on 1-3 tables attached after some initial data + a history of 10-30 operations over few keys (6 parents x 4 child keys x 4 groups): local transactions (upserts, column updates, deletes, re-inserts, key changes, several statements on the same key), changesets authored by a second real node delivered complete / cut into chunks (buffered) / late / out of order / several versions per ingest call (so deletes arrive before the inserts they supersede and stale changes arrive after newer local ones); after an operation (p=0.5) and at the end: logical quiescence of the feed task (hook log), read exactly the notifications the upd.notify hook announced, then (1) every key whose row differs between the snapshots taken around an operation since the last checkpoint has a notification in that interval, (2) for every key notified so far the last notification says delete iff the row is absent now, (3) causal lengths of the notifications delivered for one key are non-decreasing; non-trivial = execution with notifications of both kinds and >= 3 checkpoints; distinct by hash of the history",
+            rule: "execution = one real node with update-feed listeners on 1-3 tables attached after some initial data + a history of 10-30 operations over few keys (6 parents x 4 child keys x 4 groups): local transactions (upserts, column updates, deletes, re-inserts, key changes, several statements on the same key), bursts of 2-5 transactions on one or two keys whose broadcasts are delayed at a hook so that they overtake each other on the way to the feed, changesets authored by a second real node delivered complete / cut into chunks (buffered) / late / out of order / several versions per ingest call (so deletes arrive before the inserts they supersede and stale changes arrive after newer local ones); after an operation (p=0.5) and at the end: logical quiescence of the feed task (hook log), read exactly the notifications the upd.notify hook announced, then (1) every key whose row differs between the snapshots taken around an operation since the last checkpoint has a notification in that interval, (2) for every key notified so far the last notification says delete iff the row is absent now, (3) causal lengths of the notifications delivered for one key are non-decreasing; non-trivial = execution with notifications of both kinds and >= 3 checkpoints; distinct by hash of the history",
             assumptions: &[
                 "the feed carries no causal length: clause 3 is observed through the upd.notify hook placed where the notification is handed to the listener channel",
                 "the bounded cache (2000 keys) is not rolled over by this key domain; cache eviction is exercised only by the thorough tier's wide-key executions",
             ],
             min_nontrivial: 10,
-            required_stats: &["listeners", "checkpoints", "notifications", "update_notifications", "delete_notifications", "changed_keys_checked", "fate_checks", "remote_complete", "remote_buffered"],
+            required_stats: &["listeners", "checkpoints", "notifications", "update_notifications", "delete_notifications", "changed_keys_checked", "fate_checks", "remote_complete", "remote_buffered", "local_bursts"],
         },
         budget: (70, 900),
         workers: (12, 14),
@@ -170,11 +170,35 @@ pub async fn one_execution(seed: u64) -> Result<ExecOut, String> {
         let choice = rng.random_range(0..100);
         let mut info = TxInfo::default();
         let op_desc;
-        if choice < 50 {
+        if choice < 35 {
             let stmts: Vec<_> = (0..rng.random_range(1..=5)).map(|_| subs::random_stmt(&mut rng, &all, &mut info)).collect();
             let (status, _) = subs::local_tx(&mut node, stmts).await?;
             op_desc = format!("local[{}]={status}", info.desc.join(","));
             stat("local_txs", 1);
+        } else if choice < 55 {
+            // several transactions on the same few keys in quick succession: they commit one
+            // after the other, but their broadcasts (which feed the update feeds) are separate
+            // tasks and can overtake each other
+            let table = all[rng.random_range(0..all.len())];
+            klukai_types::verif::set_delay("bcast.before_read", 300, 5_000);
+            klukai_types::verif::set_delay("bcast.before_match", 700, 20_000);
+            let mut versions = vec![];
+            let mut descs = vec![];
+            for _ in 0..rng.random_range(2..=5) {
+                let mut info = TxInfo::default();
+                let stmts: Vec<_> = (0..rng.random_range(1..=2)).map(|_| subs::random_stmt_small_keys(&mut rng, table, &mut info)).collect();
+                let (status, resp) = node.tx(stmts).await;
+                descs.push(format!("{}={status}", info.desc.join(",")));
+                if status == 200
+                    && let Some(v) = resp.version
+                {
+                    versions.push(v);
+                }
+            }
+            subs::wait_broadcasts(&mut node, &versions).await?;
+            klukai_types::verif::clear_delays();
+            op_desc = format!("burst[{}]", descs.join(" | "));
+            stat("local_bursts", 1);
         } else {
             let stmts: Vec<_> = (0..rng.random_range(1..=4)).map(|_| subs::random_stmt(&mut rng, &all, &mut info)).collect();
             let (status, resp) = src.tx(stmts).await;
